@@ -1,4 +1,4 @@
-From Coq Require Import List NArith PeanoNat Lia Bool ZifyN ZifyNat.
+From Coq Require Import List NArith ZArith PeanoNat Lia Bool ZifyN ZifyNat.
 From Verif Require Import Base.BStr Persist.ShardId.
 Import ListNotations.
 Open Scope N_scope.
@@ -110,4 +110,12 @@ Proof.
   replace (j + 1 - 1) with j by lia. repeat split.
   f_equal. f_equal. apply N.log2_unique; [lia|].
   rewrite <- N.add_1_r. lia.
+Qed.
+
+Lemma provider_accepts_spec (z : Z) : (-2147483648 <= z < 2147483648)%Z ->
+  (provider_accepts z = true <-> 2 <= Z.to_N z /\ Z.to_N z < 2147483648 /\ (0 <= z)%Z).
+Proof.
+  intros Hz. unfold provider_accepts. rewrite Bool.negb_true_iff, Z.ltb_ge. split.
+  - intros H. split; [|split]; lia.
+  - intros (H & _ & H0). lia.
 Qed.
